@@ -114,6 +114,7 @@ func (lossy) Generate(r *core.PRNG, tier string, idx int64) any {
 	cfg.BigPSI = false
 	cfg.MaxPES = []int{200, 500, 900}[r.Intn(3)]
 	cfg.MidPCR = r.Chance(1, 3)
+	cfg.DiscPUSI = r.Chance(1, 4)
 	sc := &LossyScenario{Model: GenModel(r, cfg)}
 	if idx%2 == 0 {
 		sc.Enum = true
